@@ -388,6 +388,12 @@ bool ManifestParser::ParseEdge(string* err) {
     // build graph but that has since been fixed.  Filter them out to
     // support users of those old CMake versions.
     Node* out = edge->outputs_[0];
+    // Keep the order-only counter in step with what is erased from the
+    // order-only tail of inputs_ (implicit_deps_ is 0 for these edges).
+    vector<Node*>::iterator order_only_begin =
+        edge->inputs_.end() - edge->order_only_deps_;
+    edge->order_only_deps_ -= static_cast<int>(
+        count(order_only_begin, edge->inputs_.end(), out));
     vector<Node*>::iterator new_end =
         remove(edge->inputs_.begin(), edge->inputs_.end(), out);
     if (new_end != edge->inputs_.end()) {
